@@ -213,7 +213,16 @@ impl AggregatorNode {
     /// cycle failed.
     pub fn tick(&mut self) -> (String, Option<String>) {
         let inner = self.inner.as_mut().expect("aggregator is down");
-        let res = self.rt.block_on(inner.runtime.cycle());
+        // as in production, a freshly spawned artifact task starts computing right away (it reads
+        // the epoch service now, not whenever this runtime next happens to yield); it then waits
+        // at the signed-entity store's gate until a Background event lets it complete
+        let res = self.rt.block_on(async {
+            let res = inner.runtime.cycle().await;
+            for _ in 0..4 {
+                tokio::task::yield_now().await;
+            }
+            res
+        });
         (inner.runtime.state_label().to_string(), res.err().map(|e| format!("{e:?}")))
     }
 
